@@ -213,7 +213,11 @@ def fam_handles(seed, big):
     for handle in ("capture_data", "pl_capture_data"):
         for script in (["x0"], ["r10", "x0"], ["R", "x0"], ["s30", "x1"], ["ci", "s20", "x0"],
                        # closes its outputs first and only then reads its input to the end
-                       ["co", "ce", "s100", "R", "x0"], ["wo10", "co", "ce", "R", "x0"]):
+                       ["co", "ce", "s100", "R", "x0"], ["wo10", "co", "ce", "R", "x0"],
+                       # closes its input unread (the exchange fails with EPIPE) and goes on writing more than a pipe holds:
+                       # the failing call must let go of its reading ends before it waits for the child
+                       ["ci", "s20", "wo300000", "x0"], ["r10", "ci", "s20", "we300000", "x4"],
+                       ["ci", "s20", "wo300000", "we300000", "x0"]):
             out.append({"id": "h%d" % i, "kind": "handle", "class": "handle-capture-data", "handle": handle,
                         "script": script, "write": 4 << 20, "detached": False, "may_fail": True})
             i += 1
